@@ -5,7 +5,7 @@ cd /verif
 D=$1; ID=$2; SEED=${3:-1}
 timeout 900 go build -modfile=/tmp/lead.mod -tags verif -o build/bin/$D.mut ./h/cmd/$D || { echo BUILD-FAILED; exit 9; }
 if [ "$(build/bin/$D.mut --needs-race $ID)" = yes ]; then
-  timeout 900 go build -race -modfile=/tmp/lead.mod -tags verif -o build/bin/$D.mut.race ./h/cmd/$D || { echo BUILD-FAILED; exit 9; }
+  timeout 900 go build -race -modfile=/tmp/lead.mod -tags "verif appengine" -o build/bin/$D.mut.race ./h/cmd/$D || { echo BUILD-FAILED; exit 9; }
   export VCHECK_RACE_BIN=/verif/build/bin/$D.mut.race
 fi
 VERIF_SEED=$SEED timeout 1800 build/bin/$D.mut $ID quick 2>&1 | grep -E "VIOLATION|key=|INCONCLUSIVE|KNOWN|held|violated|inconclusive" | head -12
